@@ -17,6 +17,16 @@ pub use explain::Explain;
 pub use optimizer::{Config, Optimizer};
 pub use rules::{ExprAnalysis, Statistics, TypeError, TypeSchemaAnalysis};
 
+/// (verification hook) the rewrite-rule lists, so that a single rule can be applied to an instantiated
+/// left-hand side by the external rule checker.
+#[cfg(feature = "verif")]
+pub mod verif {
+    pub use super::cost::CostFn;
+    pub use super::rules::{expr, order, plan, range};
+    pub type EGraph = egg::EGraph<super::Expr, super::ExprAnalysis>;
+    pub type Rewrite = egg::Rewrite<super::Expr, super::ExprAnalysis>;
+}
+
 // Alias types for our language.
 type EGraph = egg::EGraph<Expr, ExprAnalysis>;
 type Rewrite = egg::Rewrite<Expr, ExprAnalysis>;
